@@ -97,10 +97,12 @@ def merge_histories():
     H["combine-models-carry"] = [("add", 0, ["x==K0"]), ("eval", 0, "x", 2, []), ("branch", 0, 1), ("add", 1, ["x==K1"]), ("combine", 0, [1], 2), ("sat", 2, []), ("eval", 2, "x", 2, [])]
     H["combine-three"] = [("add", 0, [A]), ("branch", 0, 1), ("branch", 0, 2), ("add", 1, ["y==K1"]), ("add", 2, ["z==K2"]), ("eval", 1, "y", 2, []), ("eval", 2, "z", 2, []), ("combine", 0, [1, 2], 3), ("eval", 3, "x", 9, []), ("batch", 3, ["y", "z"], 2, [])]
     # three-way merge / combine where only SOME of the participants share a child or a variable
-    H["merge-three-partial-share"] = [("add", 0, [A]), ("branch", 0, 1), ("branch", 0, 2), ("branch", 0, 3), ("add", 1, ["y==K1"]), ("add", 2, ["y<=K2"]), ("add", 3, ["x>=K1"]),
-                                      ("merge", 1, [2, 3], ["z==K2", "z<=K0", "b"], 4), ("eval", 4, "x", 9, []), ("eval", 4, "x", 9, ["b"]), ("sat", 4, ["x>K2"])]
-    H["merge-three-partial-share-2"] = [("add", 0, [A]), ("branch", 0, 1), ("branch", 0, 2), ("branch", 0, 3), ("add", 1, ["y==K1"]), ("add", 2, ["y!=K1"]), ("add", 3, ["x!=K2"]),
-                                        ("merge", 2, [1, 3], ["b", "!b", "z==K2"], 4), ("max", 4, "x", False, []), ("eval", 4, "x", 9, [])]
+    H["merge-three-partial-share"] = [("branch", 0, 3), ("add", 0, [A]), ("branch", 0, 1), ("branch", 0, 2), ("add", 1, ["y==K1"]), ("add", 3, ["x>=K1"]),
+                                      ("merge", 1, [2, 3], ["b", "!b", "b|x==K0"], 4), ("eval", 4, "x", 9, []), ("sat", 4, ["x>K2"])]
+    H["merge-three-partial-share-2"] = [("branch", 0, 3), ("add", 0, [A]), ("branch", 0, 1), ("branch", 0, 2), ("add", 2, ["y!=K1"]), ("add", 3, ["x!=K2"]),
+                                        ("merge", 2, [1, 3], ["b", "!b", "x==K0"], 4), ("max", 4, "x", False, [])]
+    H["merge-three-partial-share-3"] = [("add", 0, [A]), ("branch", 0, 1), ("branch", 0, 2), ("branch", 0, 3), ("add", 1, ["y==K1"]), ("add", 3, ["x!=K2"]),
+                                        ("merge", 1, [2, 3], ["b", "!b", "b|x==K0"], 4), ("eval", 4, "x", 9, [])]
     H["merge-cond-over-shared-var"] = [("add", 0, [A]), ("branch", 0, 1), ("add", 0, ["y==K1"]), ("add", 1, ["y<=K2"]), ("merge", 0, [1], ["x==K0", "x==K1"], 2), ("eval", 2, "x", 9, []), ("sat", 2, ["x>K2"])]
     H["combine-three-others-overlap"] = [("branch", 0, 1), ("branch", 0, 2), ("add", 0, ["x==K0"]), ("add", 1, ["y<=K2"]), ("add", 2, ["y>=K0"]), ("eval", 0, "x", 2, []), ("eval", 1, "y", 2, []),
                                          ("eval", 2, "y", 2, []), ("combine", 0, [1, 2], 3), ("sat", 3, []), ("eval", 3, "y", 9, [])]
@@ -180,6 +182,11 @@ PROPS = {
 }
 
 
+# histories whose point is lost with 1-bit variables (a range constraint over one bit is rewritten to an equality, and two contradicting
+# equalities are caught by the pairwise shortcut before the code under test is reached)
+NEEDS_TWO_BITS = {"combine-three-others-overlap"}
+
+
 def obligations(prop, tier):
     quick = tier == "quick"
     hs, classes, opts = PROPS[prop]
@@ -199,6 +206,8 @@ def obligations(prop, tier):
                     N = 2 if not quick else 1
                 if quick and (len(h) >= 7 or (nv >= 2 and len(h) >= 6)):
                     N = 1   # long histories: 1-bit variables in the quick tier (2-3 bits in the thorough tier)
+                if name in NEEDS_TWO_BITS:
+                    N = max(N, 2)
                 p = {"hist": h, "cls": cls, "N": N, "reuse": reuse}
                 p.update(opts)
                 if prop == "C17" and quick:
@@ -228,7 +237,7 @@ EXTRA_FUNCS = {
     "C14": ["Frontend.branch / _blank_copy / _copy chains of every mixin", "FullFrontend._get_solver (finalize + clone)", "CompositeFrontend._claim (copy-on-write)"],
     "C15": ["ConstrainedFrontend.merge / combine / split / _split_constraints", "CompositeFrontend.merge / combine / split", "ModelCacheMixin.combine / split",
             "HybridFrontend.merge / combine / split", "ReplacementFrontend.merge / combine / split"],
-    "C16": ["FullFrontend.unsat_core", "SatCacheMixin._add (_cached_unsat_core) / unsat_core", "CompositeFrontend.unsat_core"],
+    "C16": ["BackendZ3.add(track=True) / _add / unsat_core / _unsat_core (kernel leg, real z3.Solver)", "FullFrontend.unsat_core", "SatCacheMixin._add (_cached_unsat_core) / unsat_core", "CompositeFrontend.unsat_core"],
     "C17": ["every frontend query path with a backend check that raises ClaripySolverInterruptError at a symbolic position"],
     "C18": ["__getstate__/__setstate__ of every frontend class and mixin", "claripy.ast.base.Base.__reduce__ / _d (in-process)"],
 }
